@@ -133,7 +133,7 @@ func traceOf(p *ptn.PTN) string {
 		if it.Position() != nil {
 			pos = dumpPos(it.Position())
 			kept = append(kept, it.Position())
-			keptDump = append(keptDump, pos+" "+absDump(it.Position()))
+			keptDump = append(keptDump, pos)
 		}
 		w = append(w, fmt.Sprintf("T:%d:%s:%s:%s", it.PTNMove(), encMove(it.Move()), encMove(it.PeekMove()), pos))
 		limit--
@@ -149,7 +149,7 @@ func traceOf(p *ptn.PTN) string {
 	}
 	r := "R:kept"
 	for i, q := range kept {
-		if dumpPos(q)+" "+absDump(q) != keptDump[i] {
+		if dumpPos(q) != keptDump[i] {
 			r = fmt.Sprintf("R:changed@%d", i)
 			break
 		}
